@@ -48,9 +48,11 @@ namespace ip {
 		std::vector<asio::ip::address> result;
 		boost::system::error_code ec;
 
+		// a lookup is served after the ones queued before it, and never
+		// before it was requested
 		const chrono::high_resolution_clock::time_point start_time =
 			m_queue.empty() ? chrono::high_resolution_clock::now() :
-			m_queue.back().completion_time;
+			(std::max)(chrono::high_resolution_clock::now(), m_queue.back().completion_time);
 
 		assert(!m_ios->get_ips().empty() && "internal io service objects can only "
 			"be used for timers");
